@@ -129,7 +129,13 @@ def run(chk):
         N = rng.randint(0, 15)
         xs = [rng.choice(["CA", "CB", "CC", "CAD"]) for _ in range(N)]
         m = rng.choice([None, 0, 1, 2, N, N + 1, max(N - 1, 0), 5])
+        if _ % 3 == 0 and N >= 4:
+            # short sequences first, LONGER ones later (every drawn element is an element of the input, whole)
+            xs = ["CA"] * 2 + [rng.choice(["CASSLGQYF", "CASSF", "CAVRDNYGQNFVF", "CAS"]) for _ in range(N - 2)]
+            m = rng.choice([1, 2, 3]) if _ else 3
         cont = rng.choice(["list", "array", "series", "frame"])
+        if _ == 0:
+            cont = "list"
         np.random.seed((seed0 + k) % (2 ** 32))
         k += 1
         if cont == "frame":
